@@ -23,6 +23,10 @@ type SideDef struct {
 	TimeoutS int      `json:"timeout_s"`
 	Tags     string   `json:"tags"`
 	Shims    []string `json:"shims"` // source files of /repo replaced by a mechanically rewritten copy (os.<effect> -> verifOS.<effect>)
+	// ScratchWorkspace: run in a scratch copy of /repo's working tree (outside /repo and /verif, removed afterwards)
+	// in Go workspace mode. Needed when the code under test calls `go list` itself (packages.Load) and the
+	// packages it loads resolve only through go.work - workspace mode rewrites go.work.sum, which must not happen in /repo.
+	ScratchWorkspace bool `json:"scratch_workspace"`
 }
 
 type SideFailure struct {
@@ -60,6 +64,22 @@ func runSideCheckEnv(name, prop, tier string, seed int, extraEnv []string) *Side
 	}
 	work := filepath.Join(verifDir, "work", prop, "side_"+mangle(name))
 	_ = os.MkdirAll(work, 0o755)
+	repoDir := repoDir
+	if def.ScratchWorkspace {
+		tmp, err := os.MkdirTemp("", "kvc-side-")
+		if err != nil {
+			sr.Broken = "scratch dir: " + err.Error()
+			return sr
+		}
+		defer os.RemoveAll(tmp)
+		cp := exec.Command("rsync", "-a", "--exclude=.git", repoDirSlash(), tmp+"/")
+		if out, err := cp.CombinedOutput(); err != nil {
+			sr.Broken = "scratch copy: " + err.Error() + ": " + string(out)
+			return sr
+		}
+		repoDir = tmp
+		extraEnv = append(append([]string{}, extraEnv...), "GOWORK=", "GOFLAGS=-mod=readonly", "KVC_SCRATCH=1")
+	}
 	ov := map[string]map[string]string{"Replace": {}}
 	for i, f := range def.Files {
 		dst := filepath.Join(repoDir, def.Pkg, fmt.Sprintf("zz_verif_side_%d_test.go", i))
@@ -240,3 +260,5 @@ func cmdReplay(path string) int {
 	fmt.Println("not reproduced on the current tree")
 	return 0
 }
+
+func repoDirSlash() string { return strings.TrimSuffix(repoDir, "/") + "/" }
